@@ -376,7 +376,7 @@ func fileKeys() []fileKey {
 
 var brokenKeys int
 
-var recLoad = ev.New("TestPropLoadKey", "key-set files (JWKS form, or bare-JWK form for singletons) of 0-3 keys with distinct kids drawn from valid keys (private and public EdDSA/ES512/PS512), a valid kid-less key and invalid keys (HS512 oct, RS256, ES256, no alg, and structurally broken keys - one member of the key material emptied or halved - that declare an approved algorithm), x requested id in {\"\", each kid, an absent kid}, plus unreadable and malformed files; LoadKey must return the key with that id / the only key, else fail; non-trivial = set of >=2 keys, or a selected key that is invalid; distinct by (file content, id)")
+var recLoad = ev.New("TestPropLoadKey", "key-set files (JWKS form, or bare-JWK form for singletons) of 0-3 keys with distinct kids drawn from valid keys (private and public EdDSA/ES512/PS512), a valid kid-less key and invalid keys (HS512 oct, RS256, ES256, no alg, and structurally broken keys - one member of the key material emptied or halved - that declare an approved algorithm), x requested id in {\"\", each kid, an absent kid, near misses of each kid (white-space padded, upper-cased, truncated), white space only}, plus unreadable and malformed files; LoadKey must return the key with that id / the only key, else fail; non-trivial = set of >=2 keys, or a selected key that is invalid; distinct by (file content, id)")
 
 func TestPropLoadKey(t *testing.T) {
 	all := fileKeys()
@@ -429,6 +429,14 @@ func TestPropLoadKey(t *testing.T) {
 				ids = append(ids, c.Kid)
 			}
 		}
+		// near misses of the ids in the file: padded with white space, other case, a prefix - none of
+		// them is the id of a key, so each must fail like any absent id (and never act as "no id")
+		for _, c := range chosen {
+			if c.Kid != "" {
+				ids = append(ids, " "+c.Kid, c.Kid+"\n", c.Kid+" ", strings.ToUpper(c.Kid), c.Kid[:len(c.Kid)-1])
+			}
+		}
+		ids = append(ids, " ", "\n", "\t")
 		id := rapid.SampledFrom(ids).Draw(t, "id")
 		var want *fileKey
 		if id == "" {
